@@ -11,6 +11,7 @@ import (
 	"fmt"
 	"go/types"
 	"os"
+	"strings"
 
 	"golang.org/x/tools/go/ssa"
 )
@@ -150,6 +151,25 @@ func (c *Ctx) unaryDtypeTable(oi *opInfo, name string) (known bool, bad string) 
 			return true, fmt.Sprintf("the result of the element-wise application is not the operator's single output for a %s input", T)
 		}
 		fn := cell.applies[0]
+		trail, pt, okTrail := c.elementTrail(fn, cell.binds[0], cov)
+		if os.Getenv("UNARYDEBUG") != "" {
+			fmt.Printf("UNARYDEBUG %s %s trail=%q param=%s ok=%v\n", name, dn, trail, pt, okTrail)
+		}
+		if okTrail {
+			// the element function walked on one element: what is done to it, however the function is written
+			// (generic instance, literal, adapter closure, or the function of package math itself)
+			want := "math." + mathUnary[name]
+			if T != "float64" {
+				want = "conv:float64|" + want + "|conv:" + T
+			}
+			switch {
+			case pt != T:
+				return true, fmt.Sprintf("dtype %s applies an element function on %s: elements are read as the wrong type (the closure is never called or panics inside gorgonia)", T, pt)
+			case trail != want:
+				return true, fmt.Sprintf("%s elements are computed as %s, expected %s", T, showTrail(trail), showTrail(want))
+			}
+			continue
+		}
 		if fn != nil && len(fn.FreeVars) > 0 {
 			// an adapter closure func(x T) T { return T(f(float64(x))) } around a function of package math
 			got, ok := adapterOf(fn, cell.binds[0])
@@ -185,6 +205,9 @@ func (c *Ctx) unaryDtypeTable(oi *opInfo, name string) (known bool, bad string) 
 		}
 	}
 	if unc := cov.uncovered(c); len(unc) > 0 {
+		if os.Getenv("UNARYDEBUG") != "" {
+			fmt.Println("UNARYDEBUG uncovered", name, unc)
+		}
 		c.declined("dtype table of "+name, unc)
 		return false, ""
 	}
@@ -228,4 +251,83 @@ func adapterOf(fn *ssa.Function, binds []pval) (string, bool) {
 		}
 	}
 	return "", false
+}
+
+// elementTrail walks an element function func(x T) T on one element token and returns what is done to the element
+// (conversions that change the type and calls of package math, in order) and the Go type of its parameter. A
+// function without a body (math.Cos handed to Apply as it is) is its own trail.
+func (c *Ctx) elementTrail(fn *ssa.Function, binds []pval, cov *pcover) (trail, paramT string, ok bool) {
+	if fn == nil || fn.Signature.Params().Len() != 1 || fn.Signature.Results().Len() != 1 {
+		return "", "", false
+	}
+	paramT = types.TypeString(fn.Signature.Params().At(0).Type(), nil)
+	resT := types.TypeString(fn.Signature.Results().At(0).Type(), nil)
+	raw := ""
+	if fnPkgPath(fn) == "math" && fn.Signature.Recv() == nil && fn.Parent() == nil {
+		raw = "|math." + fn.Name()
+	} else if len(fn.Blocks) == 0 {
+		return "", "", false
+	} else {
+		if !isLibFn(fn) {
+			return "", "", false
+		}
+		st := c.libInit()
+		heap := st.heap.clone()
+		p := &pinterp{c: c, budget: 20000, objects: true, globals: st.globals, cover: cov}
+		if len(fn.FreeVars) > 0 {
+			if len(binds) != len(fn.FreeVars) {
+				return "", "", false
+			}
+			// the bindings as cells of their own
+			cells := make([]pval, len(binds))
+			for i, b := range binds {
+				l := heap.alloc([]pval{b})
+				cells[i] = pval{k: pElemAddr, i: l.i, j: 0}
+			}
+			p.nextFree = cells
+		}
+		res, _ := p.run(fn, []pval{{k: pTok, i: 0}}, 0, heap)
+		if p.aborted || len(res) != 1 || res[0].k != pTok || res[0].i != 0 {
+			return "", "", false
+		}
+		raw = res[0].s
+	}
+	cur := paramT
+	var parts []string
+	for _, step := range strings.Split(raw, "|") {
+		switch {
+		case step == "":
+		case strings.HasPrefix(step, "conv:"):
+			if t := strings.TrimPrefix(step, "conv:"); t != cur {
+				cur = t
+				parts = append(parts, step)
+			}
+		case strings.HasPrefix(step, "math."):
+			if cur != "float64" {
+				return "", "", false
+			}
+			parts = append(parts, step)
+		default:
+			parts = append(parts, step)
+		}
+	}
+	if cur != resT {
+		return "", "", false
+	}
+	return strings.Join(parts, "|"), paramT, true
+}
+
+func showTrail(t string) string {
+	if t == "" {
+		return "x"
+	}
+	out := "x"
+	for _, step := range strings.Split(t, "|") {
+		if strings.HasPrefix(step, "conv:") {
+			out = strings.TrimPrefix(step, "conv:") + "(" + out + ")"
+		} else {
+			out = step + "(" + out + ")"
+		}
+	}
+	return out
 }
